@@ -59,6 +59,7 @@ extern int vk_eintr_budget;      /* EINTR results still to be injected */
 extern int vk_eintr_seen;        /* EINTR results injected so far */
 extern int vk_fault_budget;      /* failing results (ENOMEM/EACCES/...) still to be injected */
 extern int vk_fault_seen;
+extern int vk_no_rescuer;        /* harness: no live process could post: a sem_wait that would block is a violation, not an ended path */
 extern int vk_expect_noblock;    /* harness expectation: a sem_wait issued now must find a unit */
 extern int vk_bad_close;         /* close() on a descriptor that is not open in the calling process */
 extern int vk_bad_munmap;        /* munmap() of an address that is no live mapping base of the process */
